@@ -337,7 +337,11 @@ class FullFrontend(ConstrainedFrontend):
             # all constraints are satisfied
             return ()
 
-        unsat_core = self._solver_backend.unsat_core(self._get_solver())
+        # The backend solver reports the core of its most recent check, which need not have been a check of these
+        # constraints: satisfiable() may have answered from a cache, or the last check had other extra constraints.
+        solver = self._get_solver()
+        self._solver_backend.satisfiable(extra_constraints=extra_constraints, solver=solver)
+        unsat_core = self._solver_backend.unsat_core(solver)
 
         return tuple(unsat_core)
 
